@@ -138,6 +138,7 @@ func (co *coord) runBox(bi int, deadline time.Time) *boxStats {
 	firstWith := map[int]uint32{} // flag bit -> first state id
 	deepest := uint32(0)
 	aborted := false
+	violated := false
 	timedOut := false
 
 	// addState appends a tree node; the caller has already decided it is new (or cheaper).
@@ -197,8 +198,14 @@ func (co *coord) runBox(bi int, deadline time.Time) *boxStats {
 			st.Poisoned++
 		}
 		if len(viols) > 0 && !aborted {
-			aborted = true
-			os.WriteFile(abortFile(), nil, 0o644)
+			if box.Mode == "A" {
+				// finish the level so that the reported counterexample is the smallest of
+				// its length (deterministic across runs); the search stops after the level
+				violated = true
+			} else {
+				aborted = true
+				os.WriteFile(abortFile(), nil, 0o644)
+			}
 		}
 		for i := range res {
 			switch res[i].status {
@@ -271,6 +278,10 @@ func (co *coord) runBox(bi int, deadline time.Time) *boxStats {
 				return addState(parent, rc)
 			}, func(id uint32, rc *rec, nd uint8) { next = append(next, id) })
 			if aborted || timedOut || pending > 0 {
+				return nil
+			}
+			if violated {
+				aborted = true
 				return nil
 			}
 			level++
